@@ -245,6 +245,7 @@ func c02Step(cpu *z80.CPU) (p interface{}) {
 
 func newC02Runner(bg *[65536]uint8) *c02Runner {
 	r := &c02Runner{mem: obs.NewMem(bg), io: &obs.IO{}}
+	r.mem.Limit = 4096 // deterministic watchdog per Step (ClearLog resets the counter)
 	r.cpu.Memory = r.mem
 	r.cpu.IO = r.io
 	return r
